@@ -33,9 +33,7 @@ func (e *Engine) report(prop, tier string, seed int, us []*Unit, luaUnits []stri
 	knownPrinted := map[string]bool{}
 	var violLines []string
 	outDir := filepath.Join(e.verif, "out", "replay", prop)
-	if write {
-		os.RemoveAll(outDir)
-	}
+	os.RemoveAll(outDir)
 	for _, o := range all {
 		solverMs += o.Ms
 		if o.ExpectSat {
@@ -100,14 +98,14 @@ func (e *Engine) report(prop, tier string, seed int, us []*Unit, luaUnits []stri
 		} else {
 			rf.Explanation = "no solver could discharge this obligation within the time limit (it is discharged on the unchanged tree)"
 		}
-		if write {
+		{
 			smtPath := filepath.Join(outDir, sanitize(o.Name)+".smt2")
 			os.MkdirAll(outDir, 0o755)
 			if o.Kind != "target" && o.Kind != "subset" {
 				os.WriteFile(smtPath, []byte(o.smt(true)), 0o644)
 				rf.SMTFile = smtPath
 			}
-			if o.Model != nil {
+			if o.Status != "vacuous" && !e.noReplay {
 				if rr := e.tryReplay(o, outDir); rr != nil {
 					rf.Replay = rr
 					rf.FailingInputFound = rr.Reproduced
@@ -143,7 +141,7 @@ func (e *Engine) report(prop, tier string, seed int, us []*Unit, luaUnits []stri
 	}
 	if res.broken && res.violations == 0 {
 		path := filepath.Join(outDir, "engine-error.json")
-		if write {
+		{
 			writeJSON(path, map[string]any{"property": prop, "contract_errors": e.cs.Errors, "spec_errors": e.specErrs,
 				"explanation": "the contracts could not be interpreted against the current source (a name they use is gone or changed type); the property can no longer be shown to hold"})
 		}
